@@ -32,6 +32,7 @@ N1 == {1}
 NQuick == {1, 2, 3, 5}
 NBig == {12}
 NAll == 1..12
+NHuge == {33, 64}        \* far beyond the counts anyone tests with: the mask is still the exact fraction of the n x n sample centres
 PivQuick == {<<0, 0>>, <<3, -2>>}
 PivOne == {<<3, -2>>}
 DirsThree == {<<3, 4, 5>>, <<-12, 5, 13>>, <<0, 1, 1>>}
@@ -125,6 +126,8 @@ FamMaskCompound ==
   {CAnn(cx, 0, q[1], q[2], inc) : cx \in {0, 1}, q \in {<<1, 3>>, <<2, 5>>, <<4, 9>>}, inc \in {"absent", "F"}}
   \cup {EAnn(kind, cx, 1, q, d, "absent") : kind \in {"eannulus", "rannulus"}, cx \in {0, 1}, q \in AnnSizes, d \in MaskDirs}
   \cup FamPairs \cup FamDeep
+FamRectHuge == {Ell("rectangle", cx, 1, q[1], q[2], d, "absent") : cx \in {0, 1}, q \in {<<6, 2>>, <<3, 5>>}, d \in {<<1, 0, 1>>, <<0, 1, 1>>}}       \* (rotated shapes overflow 32-bit squares on the 64-fold refined lattice)
+               \cup {Poly(<< <<0, 0>>, <<7, 1>>, <<2, 6>> >>, "absent"), Circle(1, 0, 3, "absent")}
 FamUnsupported == FamOthers
 
 FamSimple == FamCircles \cup FamEllipses \cup FamRectangles \cup FamPolygons \cup FamAnnuli \cup FamOthers
